@@ -1712,6 +1712,10 @@ func (env *LEnv) call(ctx context.Context, fun *LVal, args *LVal) *LVal {
 		// builtin returns.
 		prev := env.evalCtx
 		env.evalCtx = ctx
+		// Deferred as well as explicit: a builtin that panics unwinds through
+		// here to eval's recover, and without this the runtime keeps ctx --
+		// possibly already cancelled -- as env's evaluation context.
+		defer func() { env.evalCtx = prev }()
 		val := fn(env, list)
 		env.evalCtx = prev
 		if val == nil {
@@ -1720,8 +1724,13 @@ func (env *LEnv) call(ctx context.Context, fun *LVal, args *LVal) *LVal {
 		if val.Type == LMarkTerminal {
 			env.Runtime.Stack.Top().Terminal = true
 			termEnv := val.Native.(*LEnv)
+			// Bridge ctx for the terminal evaluation only; leaving it set made a
+			// later context-free Eval on termEnv observe a stale (cancelled) ctx.
+			prevTerm := termEnv.evalCtx
 			termEnv.evalCtx = ctx
-			return termEnv.eval(ctx, val.Cells[0])
+			res := termEnv.eval(ctx, val.Cells[0])
+			termEnv.evalCtx = prevTerm
+			return res
 		}
 		return val
 	}
